@@ -2,6 +2,7 @@ import ScyllaVerif.Model.Util
 import ScyllaVerif.Model.FrameHdr
 import ScyllaVerif.Model.C08Value
 import ScyllaVerif.Model.C08Tablet
+import ScyllaVerif.Drive.C01
 /-! Line-protocol driver for C08.
 
 Cases:
@@ -111,6 +112,9 @@ def nativeToCql : Native → ScyllaVerif.Cql.NativeTy
   | .uuid => .uuid | .text => .text | .varint => .varint | .timeuuid => .timeuuid | .inet => .inet
   | .date => .date | .time => .time | .smallint => .smallint | .tinyint => .tinyint | .duration => .duration
 
+/-- A validated UTF-8 name as a `String`. -/
+def strOf (b : Bytes) : String := (String.fromUTF8? ⟨b.toArray⟩).getD ""
+
 mutual
 def tyToCql : Ty → ScyllaVerif.Cql.CqlTy
   | .native n => .native (nativeToCql n)
@@ -118,23 +122,62 @@ def tyToCql : Ty → ScyllaVerif.Cql.CqlTy
   | .set _ t => .set (tyToCql t)
   | .map _ k v => .map (tyToCql k) (tyToCql v)
   | .tuple ts => .tuple (tysToCql ts)
-  | .udt _ _ _ fs => .udt "" "" (fieldsToCql fs)
+  | .udt _ ks name fs => .udt (strOf ks) (strOf name) (fieldsToCql fs)
   | .vector t d => .vector (tyToCql t) d
 def tysToCql : List Ty → List ScyllaVerif.Cql.CqlTy
   | [] => []
   | t :: ts => tyToCql t :: tysToCql ts
 def fieldsToCql : List (Bytes × Ty) → List (String × ScyllaVerif.Cql.CqlTy)
   | [] => []
-  | (_, t) :: fs => ("", tyToCql t) :: fieldsToCql fs
+  | (n, t) :: fs => (strOf n, tyToCql t) :: fieldsToCql fs
 end
 
-/-- ` typed=<rows decoded>[:err]` — `rows_iter::<Row>()` consumed until its first error. -/
+/-- FNV-1a, 64 bit, of a string's UTF-8 bytes (the harness hashes the same canonical text). -/
+def fnv64 (s : String) : UInt64 :=
+  s.toUTF8.toList.foldl (fun h b => (h ^^^ b.toUInt64) * 0x100000001b3) 0xcbf29ce484222325
+
+def hex64 (x : UInt64) : String :=
+  String.join ((List.range 8).reverse.map (fun i => hexByte (UInt8.ofNat ((x.toNat >>> (8 * i)) % 256))))
+
+/-- ` typed=<rows decoded>[:err:<kind>] tv=<hash of the decoded values>` — `rows_iter::<Row>()` consumed until its
+first error; the values are printed canonically with C01's `showVal` (one line per row) and hashed. -/
 def typedStr (cols : List ColSpec) (n : Nat) (raw : Bytes) : String :=
-  match ScyllaVerif.C08V.rowsP utf8ok (cols.map (fun c => tyToCql c.ty)) n 0 raw with
-  | .ok (done, none) => s!" typed={done}"
-  | .ok (done, some _) => s!" typed={done}:err"
+  match ScyllaVerif.C08V.rowsP utf8ok (cols.map (fun c => tyToCql c.ty)) n raw with
+  | .ok (rows, e) =>
+    let text := String.join (rows.map (fun r =>
+      " ".intercalate (r.map (fun v => " ".intercalate (ScyllaVerif.Drive.C01.showVal v))) ++ "\n"))
+    s!" typed={rows.length}" ++ (match e with
+      | none => ""
+      | some k => ":err:" ++ ScyllaVerif.Drive.C01.deErrName k) ++ " tv=" ++ hex64 (fnv64 text)
   | .err _ => " typed=?"
   | .panic site => " typed=MODEL-PANIC " ++ site
+
+def NTH_ARGS : List Nat := [0, 1, 2, 3, 9000, 65534, 65535, 2 ^ 64 - 1]
+
+/-- ` nth=…`: `VectorIterator::nth` with boundary arguments on the first row of a single vector column. -/
+def nthStr (cols : List ColSpec) (rowsCount : Nat) (raw : Bytes) : String :=
+  match cols, rowsCount with
+  | [c], _ + 1 =>
+    match tyToCql c.ty with
+    | .vector elt dim =>
+      match readCells 1 0 raw with
+      | .error _ => " nth=rowerr"
+      | .ok ([none], _) => " nth=rowerr"
+      | .ok ([some cell], _) =>
+        match ScyllaVerif.C08V.sizeForVectorSat elt with
+        | none => " nth=var"
+        | some size =>
+          " nth=" ++ lst (NTH_ARGS.map (fun n =>
+            toString n ++ ":" ++
+            match ScyllaVerif.C08V.vecNthFixedP (fun b => ScyllaVerif.C08V.decValP utf8ok elt b) size dim n cell with
+            | .ok (none, _, _) => "none"
+            | .ok (some (.ok _), _, _) => "ok"
+            | .ok (some (.error _), _, _) => "err"
+            | .err _ => "?"
+            | .panic site => "MODEL-PANIC " ++ site))
+      | .ok _ => " nth=?"
+    | _ => ""
+  | _, _ => ""
 
 def cellStr : Option Bytes → String
   | none => "null"
@@ -154,7 +197,7 @@ def rowsStageStr (rs : RowsStage) : String :=
       | some (r, c, k) => " rowerr=" ++ toString r ++ ":" ++ toString c ++ ":" ++ k
     let n := if d.rmeta.cols.isEmpty then min d.rowsCount ZERO_COL_ROW_CAP else d.rowsCount
     "src=" ++ src ++ " " ++ metaStr d.rmeta ++ " rc=" ++ toString d.rowsCount ++ " " ++ rowsS ++ errS ++
-      typedStr d.rmeta.cols n d.rawRows
+      typedStr d.rmeta.cols n d.rawRows ++ nthStr d.rmeta.cols d.rowsCount d.rawRows
 
 def respStr (f : Features) (r : Response) (rs : Option RowsStage) : String :=
   match r with
@@ -322,8 +365,24 @@ def runTail (cap : Nat) (bs : Bytes) : String :=
            match acc with
            | (e', n) :: rest => if e' == e then (e', n + 1) :: rest else (e, 1) :: acc
            | [] => [(e, 1)]) []
+         -- the lending iterator of the paged path on the same page
+         let lendS := match lendRows d.rmeta.cols.length (min cap d.rowsCount) 0 d.rawRows with
+           | .ok litems =>
+             let loks := (litems.filter (fun i => match i with
+               | .ok _ => true
+               | .error _ => false)).length
+             let lerrs := litems.filterMap (fun i => match i with
+               | .ok _ => none
+               | .error (c, k) => some s!"{c}:{k}")
+             let lrle := lerrs.foldl (fun (acc : List (String × Nat)) e =>
+               match acc with
+               | (e', n) :: rest => if e' == e then (e', n + 1) :: rest else (e, 1) :: acc
+               | [] => [(e, 1)]) []
+             s!"{loks}:{litems.length - loks}:" ++ lst (lrle.reverse.map (fun p => s!"{p.1}*{p.2}"))
+           | .err k => "err " ++ k
+           | .panic k => "MODEL-PANIC " ++ k
          s!"tail rc={d.rowsCount} ok={oks} err={items.length - oks} errs=" ++
-           lst (rle.reverse.map (fun p => s!"{p.1}*{p.2}"))
+           lst (rle.reverse.map (fun p => s!"{p.1}*{p.2}")) ++ " lend=" ++ lendS
        | _ => "err meta")
     | (.ok _, _) => "err notrows"
     | _ => "err result"
